@@ -5,16 +5,25 @@ Import ListNotations.
 From CK Require Import Base.
 From CK Require Import Circ.
 From CK Require Import Multiply.
+From CK Require Import Scalar.
+From CK Require Import Tensor.
+From CK Require Import Pexpr.
+From CK Require Import Exec.
+From CK Require Import Ops.
+From CK Require Import Struct.
+From CK Require Import OpsProps.
+From CK Require Import Link.
+From CK Require Import LinkMul.
 Close Scope Qc_scope. Close Scope Q_scope. Close Scope Z_scope. Open Scope nat_scope.
 
 (* every pair node (i,j) of the product circuit evaluates to kron (value of i in c1) (value of j in c2), for all well-scoped circuits with declared unit counts, all inputs, any choice of pairs forced to the Kronecker fallback *)
 Theorem C04_multiply :
   forall (R : Type) (rO rI : R) (radd rmul : R -> R -> R),
          semi_ring_theory rO rI radd rmul eq ->
-         forall (D : Type) (force : nat -> nat -> bool) (c1 c2 : circuit R D),
+         forall (D : Type) (force : nat -> nat -> bool) (c1 c2 : Circ.circuit R D),
          wfm R rO radd rmul D c1 ->
          wfm R rO radd rmul D c2 ->
-         forall (y : asg D) (i j : nat),
+         forall (y : Base.asg D) (i j : nat),
          i < length c1 ->
          j < length c2 ->
          nth (pidx R D c1 c2 i j) (eval R rO radd rmul D (multiply R rmul D force c1 c2) y) [] =
@@ -26,10 +35,10 @@ Print Assumptions C04_multiply.
 Theorem C04_outputs :
   forall (R : Type) (rO rI : R) (radd rmul : R -> R -> R),
          semi_ring_theory rO rI radd rmul eq ->
-         forall (D : Type) (force : nat -> nat -> bool) (c1 c2 : circuit R D),
+         forall (D : Type) (force : nat -> nat -> bool) (c1 c2 : Circ.circuit R D),
          wfm R rO radd rmul D c1 ->
          wfm R rO radd rmul D c2 ->
-         forall (outs1 outs2 : list nat) (y : asg D),
+         forall (outs1 outs2 : list nat) (y : Base.asg D),
          (forall o : nat, In o outs1 -> o < length c1) ->
          (forall o : nat, In o outs2 -> o < length c2) ->
          map (get R (eval R rO radd rmul D (multiply R rmul D force c1 c2) y))
@@ -42,3 +51,38 @@ Theorem C04_outputs :
               outs2) outs1.
 Proof. exact multiply_outputs. Qed.
 Print Assumptions C04_outputs.
+
+(* EXECUTABLE level: for well-formed operands in the fragment (Embedding, Polynomial, constant inputs, sums, Hadamard and Kronecker products, weights ANY parameter expression evaluating to a matrix of the right shape), every product node (i,j) of the circuit returned by multiply_m (model of cirkit.symbolic.functional.multiply with its per-layer rules: outer-product embeddings, coefficient convolution, Kronecker weight with the column permutation sumsum_perm, sorted Hadamard pairing, Kronecker x Kronecker with the permutation layer kron_perm, disjoint-scope Kronecker joins) evaluates to the Kronecker product of the values of node i of a and node j of b, and the operand copies keep their values *)
+Theorem C04_multiply_executable :
+  forall (a b p : circuit) (y : asg) (va vb : list cvec),
+         mfrag a = true ->
+         mfrag b = true ->
+         wf a = true ->
+         wf b = true ->
+         multiply_m a b = Ok p ->
+         den_all a y = Some va ->
+         den_all b y = Some vb ->
+         exists vp : list cvec,
+           den_all p y = Some vp /\
+           (forall i : nat, i < length (nodes a) -> nth i vp [] = nth i va []) /\
+           (forall j : nat, j < length (nodes b) -> nth (length (nodes a) + j) vp [] = nth j vb []) /\
+           (forall i j k : nat,
+            i < length (nodes a) ->
+            j < length (nodes b) ->
+            nth (i * length (nodes b) + j) (mul_table a b) None = Some k ->
+            k < length vp /\ nth k vp [] = vkron (nth i va []) (nth j vb [])) /\
+           map (fun o : nat => nth o vp []) (outs p) =
+           pairs (fun o1 o2 : nat => vkron (nth o1 va []) (nth o2 vb [])) (outs a) (outs b).
+Proof. exact multiply_exec_den. Qed.
+Print Assumptions C04_multiply_executable.
+
+(* ... hence the outputs of the product are the Kronecker products of the operands' outputs, output (o1,o2) at o1-major position *)
+Theorem C04_multiply_executable_outputs :
+  forall (a b p : circuit) (y : asg) (oa ob : list cvec),
+         mfrag a = true ->
+         mfrag b = true ->
+         wf a = true ->
+         wf b = true ->
+         multiply_m a b = Ok p -> den a y = Some oa -> den b y = Some ob -> den p y = Some (pairs vkron oa ob).
+Proof. exact multiply_exec_den_outputs. Qed.
+Print Assumptions C04_multiply_executable_outputs.
